@@ -161,3 +161,55 @@ func (c *Client) Stop() {
 	c.cmd.Wait()
 	c.cmd = nil
 }
+
+// Peer is a client of cmd/peer: sqlittle handles and raw fcntl locks in
+// another process.
+type Peer struct {
+	cmd *exec.Cmd
+	in  io.WriteCloser
+	out *bufio.Reader
+	Pid int
+}
+
+type PeerResp struct {
+	Rows int
+	Err  string
+	Held bool
+}
+
+func StartPeer() (*Peer, error) {
+	cmd := exec.Command(ToolPath("peer"))
+	cmd.Stderr = os.Stderr
+	in, err := cmd.StdinPipe()
+	if err != nil {
+		return nil, err
+	}
+	out, err := cmd.StdoutPipe()
+	if err != nil {
+		return nil, err
+	}
+	if err := cmd.Start(); err != nil {
+		return nil, err
+	}
+	return &Peer{cmd: cmd, in: in, out: bufio.NewReader(out), Pid: cmd.Process.Pid}, nil
+}
+
+func (p *Peer) Call(cmd, path string) (PeerResp, error) {
+	var r PeerResp
+	b, _ := json.Marshal(map[string]string{"cmd": cmd, "path": path})
+	if _, err := p.in.Write(append(b, '\n')); err != nil {
+		return r, err
+	}
+	line, err := p.out.ReadBytes('\n')
+	if err != nil {
+		return r, err
+	}
+	return r, json.Unmarshal(line, &r)
+}
+
+func (p *Peer) Stop() {
+	if p != nil && p.cmd != nil {
+		p.in.Close()
+		p.cmd.Wait()
+	}
+}
